@@ -328,6 +328,10 @@ func (e *Engine) execSelect(c *Config, f *Frame, x *ssa.Select, rest func(c *Con
 			c.g = base
 			if x.Blocking {
 				c.g = And(c.g, anyReady)
+			} else {
+				// ghost: count non-blocking selects that fell through to default (spin bound assumption)
+				took := And(c.g, Not(anyReady))
+				e.defaultCount = Ite(took, Add(e.defaultCount, BV(1, 8)), e.defaultCount)
 			}
 			res := &StructV{F: []Value{idx, recvOk}}
 			res.F = append(res.F, recvVals...)
